@@ -225,7 +225,7 @@ def _d2(chk, fb, M):
         iff = f.enclosing(t, ("IfStmt",))
         hb = cfg.stmt_block(f.nodes[iff["cond"]])
         cnode = f.nodes[iff["cond"]]
-        bad = [u_ for u_ in must_precede[label] if not (cfg.dominates(hb, cfg.stmt_block(u_)) and (cfg.stmt_block(u_) != hb or e1.before_in_function(cfg, cnode, u_)))]
+        bad = [u_ for u_ in must_precede[label] if not (cfg.dominates(hb, cfg.stmt_block(u_)) and (cfg.stmt_block(u_) != hb or e1.earlier_in_block(cfg, cnode, u_)))]
         # the throw must be the only way through the 'then' branch
         thenb = f.nodes[iff["then"]]
         falls = not (cfg.is_throw_block(tb))
@@ -695,15 +695,53 @@ def _d7(chk, fb, M):
         return None
     ml, mr = mag(lhs), mag(rhs)
     new = render(kids(w)[1])
-    if (ml is None or mr is None) and not (_el(f, lhs) and _el(f, rhs)):
+
+    def status(x, depth=0):
+        """'mag' (a magnitude), 'signed' (a raw entry of the factor storage), None (not recognised)"""
+        x = strip(x)
+        if mag(x) is not None:
+            return "mag"
+        e = _el(f, x)
+        if e is not None and e[0] == "LU":
+            return "signed"
+        if x["k"] == "DeclRefExpr" and x["decl"]["kind"] == "local" and depth < 2:
+            defs = []
+            for nn in f.all_nodes():
+                if nn["k"] == "DeclStmt":
+                    for dd in nn["decls"]:
+                        if dd["id"] == x["decl"]["id"] and dd.get("init") is not None:
+                            defs.append(dd["init"])
+            for a_ in _assigns(f):
+                t_ = strip(kids(a_)[0])
+                if t_["k"] == "DeclRefExpr" and t_["decl"]["id"] == x["decl"]["id"]:
+                    defs.append(kids(a_)[1])
+            st = [status(d_, depth + 1) for d_ in defs]
+            if st and "signed" in st:
+                return "signed"
+            if st and all(s_ == "mag" for s_ in st):
+                return "mag"
+        return None
+    sl, sr = status(lhs), status(rhs)
+    if "signed" in (sl, sr):
+        chk.refuted("D7", f.key, "pivot-magnitude", f.loc(w), "the pivot search compares '%s' with a signed entry of the factor storage on one side (not a magnitude): a zero or tiny pivot is kept although a large negative entry is available below it" % render(ct),
+                    witness={"input": "[[0,2,1],[-3,1,4],[-1,5,2]] (det -10)"})
+        return
+    if (ml is None or mr is None) and sl == "mag" and sr == "mag":
+        chk.proved("D7", f.key, "pivot-magnitude", f.loc(w), "both sides of '%s' are magnitudes (running maximum cached in a local)" % render(ct))
+        ml = mr = None
+    elif (ml is None or mr is None) and not (_el(f, lhs) and _el(f, rhs)):
         chk.unknown("D7", f.key, "pivot-magnitude", f.loc(w), "comparison '%s' not in a recognised form" % render(ct))
         return
-    if ml is None or mr is None:
+    if ml is None and mr is None and sl == "mag":
+        pass
+    elif ml is None or mr is None:
         chk.refuted("D7", f.key, "pivot-magnitude", f.loc(w), "the pivot search compares '%s': signed values instead of magnitudes, so a zero or tiny pivot is kept although a large negative entry is available below it" % render(ct),
                     witness={"input": "[[0,1],[-1,0]] or [[1e-20,1],[-1,1]]"})
         return
     want_new, want_cur = (ml, mr) if ct["op"] in (">", ">=") else (mr, ml)
-    if want_new[0] == "LU" and want_cur[0] == "LU" and want_new[1] == [new, k] and want_cur[1] == [pname, k]:
+    if ml is None and mr is None:
+        pass
+    elif want_new[0] == "LU" and want_cur[0] == "LU" and want_new[1] == [new, k] and want_cur[1] == [pname, k]:
         chk.proved("D7", f.key, "pivot-magnitude", f.loc(w), "p = %s when |LU(%s, %s)| > |LU(%s, %s)|" % (new, new, k, pname, k))
     else:
         chk.refuted("D7", f.key, "pivot-magnitude", f.loc(w), "the pivot search takes row %s when '%s': it must compare |LU(i, %s)| with the best |LU(%s, %s)| so far and keep the larger" % (new, render(ct), k, pname, k),
